@@ -139,6 +139,8 @@ pub struct Opts {
     pub audit_every: u64,
     pub max_states: usize,
     pub max_wall_s: f64,
+    /// keep every expanded state's representative history and fingerprint (interleaving engine)
+    pub collect_states: bool,
 }
 
 /// Expand one history: successors (each from a fresh replay) and state-level side checks.
@@ -272,6 +274,10 @@ pub struct Outcome {
     /// first (shortest, then smallest) witness per (prop, sub)
     pub found: Vec<Found>,
     pub audit_failure_witness: Option<String>,
+    /// with `collect_states`: (fingerprint, representative history) of every state that was expanded
+    pub reps: Vec<(Fp, Vec<Ev>)>,
+    /// with `collect_states`: every fingerprint seen (expanded or on the depth bound)
+    pub fps: std::collections::HashSet<Fp>,
 }
 
 struct Info {
@@ -297,7 +303,11 @@ pub fn explore(cfg: &SimConfig, opts: &Opts) -> Outcome {
     let mut depth = 0usize;
     let mut merge_counter: u64 = 0;
 
+    let mut reps: Vec<(Fp, Vec<Ev>)> = vec![];
     while !frontier.is_empty() {
+        if opts.collect_states {
+            reps.extend(frontier.iter().cloned());
+        }
         stats.level_sizes.push(frontier.len());
         stats.max_depth = depth;
         // expand the frontier in parallel
@@ -456,5 +466,7 @@ pub fn explore(cfg: &SimConfig, opts: &Opts) -> Outcome {
         stats,
         found: found.into_values().collect(),
         audit_failure_witness,
+        fps: if opts.collect_states { visited.keys().copied().collect() } else { Default::default() },
+        reps,
     }
 }
